@@ -109,6 +109,64 @@ pub(crate) fn slow_counted_set_eq_is_multiset_equality() {
     core::mem::forget(l); core::mem::forget(r);
 }
 
+/// equality compares MULTIPLICITIES, not just lengths and key sets: {a, a, b} != {a, b, b} for a != b, and {a, a, b} == {b, a, a}
+/// (three inserts per side; the two-insert harness above cannot tell a key-set comparison from a multiset comparison)
+#[kani::proof] #[kani::unwind(8)]
+pub(crate) fn slow_counted_set_eq_compares_multiplicities() {
+    let (a, b) = (tup(), tup());
+    kani::assume(a != b);
+    let mut l: VariadicCountedHashSet<S, H0> = VariadicCountedHashSet::with_hasher(H0);
+    let mut r: VariadicCountedHashSet<S, H0> = VariadicCountedHashSet::with_hasher(H0);
+    l.insert(var_expr!(a.0, a.1)); l.insert(var_expr!(a.0, a.1)); l.insert(var_expr!(b.0, b.1));
+    let swapped: bool = kani::any();
+    if swapped {
+        r.insert(var_expr!(a.0, a.1)); r.insert(var_expr!(b.0, b.1)); r.insert(var_expr!(b.0, b.1));
+    } else {
+        r.insert(var_expr!(b.0, b.1)); r.insert(var_expr!(a.0, a.1)); r.insert(var_expr!(a.0, a.1));
+    }
+    kani::assert((l == r) == !swapped, "C10:counted_set_equality_is_multiset_equality");
+    core::mem::forget(l); core::mem::forget(r);
+}
+
+/// extend from ANY iterator == repeated insert, whatever `size_hint` said (it only feeds `reserve`)
+#[kani::proof] #[kani::unwind(6)]
+pub(crate) fn hash_set_contract_extend_any_size_hint() {
+    let mut m: VariadicHashSet<S, H0> = VariadicHashSet::with_hasher(H0);
+    let pre: bool = kani::any();
+    let first = tup();
+    if pre { m.insert(var_expr!(first.0, first.1)); }
+    let items = [tup(), tup()];
+    let n: usize = kani::any();
+    kani::assume(n <= 2);
+    m.extend(crate::harness::HavocIter { items, n, next: 0 });
+    let mut xs = [(0u8, 0u8); 3];
+    let mut k = 0;
+    if pre { xs[k] = first; k += 1; }
+    let mut i = 0;
+    while i < n { xs[k] = items[i]; k += 1; i += 1; }
+    kani::assert(m.len() == distinct(&xs, k), "C10:set_len_counts_distinct_tuples");
+    let q = tup();
+    kani::assert(m.contains(var_expr!(&q.0, &q.1)) == (count(&xs, k, q) > 0), "C10:contains_iff_inserted");
+    core::mem::forget(m);
+}
+#[kani::proof] #[kani::unwind(6)]
+pub(crate) fn deep_counted_set_extend_any_size_hint()   /* MEASURED: CBMC > 8 min and > 30 GB (stopped by hand): in NO tier */ {
+    let mut m: VariadicCountedHashSet<S, H0> = VariadicCountedHashSet::with_hasher(H0);
+    let pre: bool = kani::any();
+    let first = tup();
+    if pre { m.insert(var_expr!(first.0, first.1)); }
+    let items = [tup(), tup()];
+    let n: usize = kani::any();
+    kani::assume(n <= 2);
+    m.extend(crate::harness::HavocIter { items, n, next: 0 });
+    let k = n + if pre { 1 } else { 0 };
+    kani::assert(m.len() == k, "C10:len_counts_every_insert_with_multiplicity");
+    let q = tup();
+    let member = (pre && first == q) || (n >= 1 && items[0] == q) || (n >= 2 && items[1] == q);
+    kani::assert(m.contains(var_expr!(&q.0, &q.1)) == member, "C10:contains_iff_inserted");
+    core::mem::forget(m);
+}
+
 /// drain yields the multiset that was inserted and leaves an empty, reusable collection (one tuple, inserted once or twice)
 #[kani::proof] #[kani::unwind(6)]
 pub(crate) fn deep_counted_set_drain()   /* MEASURED > 900 s (drain + flat_map): in NO tier */ {
